@@ -129,6 +129,7 @@ G_RESOLVE = T("TablesGuards", GUARDS_RESOLVE) + T("TablesGuardsMatrices", GUARDS
 # `str.isidentifier` beyond ASCII: the interpreter's identifier classes, regenerated on every run (Generated/Ident.lean)
 IDENT_TABLES = T("TablesIdent", ["tables_valid_deme_name", "tables_xid_start", "tables_xid_continue", "tables_xid_start_wf",
                                  "tables_xid_continue_wf", "tables_xid_start_sub_continue", "isIdStart_ascii", "isIdCont_ascii"])
+CODEC_TABLES = T("TablesCodec", ["tables_codec_yaml_load", "tables_codec_yaml_dump", "tables_codec_calls"])
 EXTRA = {
     "C01": T("TablesResolve", RESOLVE_TABLES) + T("TablesConst", ["tables_rel_tol"]) + G_RESOLVE + IDENT_TABLES,
     "C02": T("TablesResolve", RESOLVE_TABLES),
@@ -138,7 +139,8 @@ EXTRA = {
     "C07": T("TablesMs", MS_TABLES) + T("TablesGuardsToMs", GUARDS_TO_MS),
     "C08": T("TablesMs", MS_TABLES) + T("TablesGuardsMsBuild", GUARDS_MS_BUILD),
     "C09": T("TablesMs", MS_TABLES),
-    "C16": T("TablesGuardsIO", GUARDS_IO),
+    "C16": T("TablesGuardsIO", GUARDS_IO) + CODEC_TABLES,
+    "C04": CODEC_TABLES,
     "C10": T("TablesConst", ["tables_rel_tol", "tables_abs_tol"]) + T("TablesGuardsClose", GUARDS_CLOSE),
     "C11": T("TablesFacts", ["fact_in_generations_copies_first"]) + T("TablesGuardsRescale", GUARDS_RESCALE),
     "C12": T("TablesConst", ["tables_rel_tol"]) + T("TablesGuardsMatrices", GUARDS_MATRICES),
